@@ -100,6 +100,37 @@ func formatFloat(f float64, bits int) string {
 	return strconv.FormatFloat(f, 'g', -1, bits)
 }
 
+// safeString, safeNumber and safeBoolean call the value's own conversion
+// method and answer the fallback when it panics: a type that merely embeds a nil
+// fmt.Stringer (or a nil pointer to one) satisfies the interface, and the call
+// dereferences nil.
+func safeString(v Stringer) (s string) {
+	defer func() {
+		if recover() != nil {
+			s = ""
+		}
+	}()
+	return v.String()
+}
+
+func safeNumber(v Number) (f float64) {
+	defer func() {
+		if recover() != nil {
+			f = 0
+		}
+	}()
+	return v.Number()
+}
+
+func safeBoolean(v Boolean) (b bool) {
+	defer func() {
+		if recover() != nil {
+			b = false
+		}
+	}()
+	return v.Boolean()
+}
+
 // basicValue returns v as a value of the built-in type of its kind when v is a
 // uintptr or belongs to a type defined over a basic kind (type ID int64, type
 // Colour string): such a value is carried like any other of that kind.
@@ -146,7 +177,7 @@ func CoerceBool(v Value) bool {
 		if isNilPointer(vc) {
 			return false
 		}
-		return vc.Boolean()
+		return safeBoolean(vc)
 	case uint:
 		return vc > 0
 	case uint8:
@@ -179,12 +210,12 @@ func CoerceBool(v Value) bool {
 		if isNilPointer(vc) {
 			return false
 		}
-		return len(vc.String()) > 0
+		return len(safeString(vc)) > 0
 	case Number:
 		if isNilPointer(vc) {
 			return false
 		}
-		return vc.Number() > 0
+		return safeNumber(vc) > 0
 	}
 	if b, ok := basicValue(v); ok {
 		return CoerceBool(b)
@@ -209,7 +240,7 @@ func CoerceNumber(v Value) float64 {
 		if isNilPointer(vc) {
 			return 0
 		}
-		return vc.Number()
+		return safeNumber(vc)
 	case uint:
 		return float64(vc)
 	case uint8:
@@ -241,11 +272,11 @@ func CoerceNumber(v Value) float64 {
 		if isNilPointer(vc) {
 			return 0
 		}
-		return stringToFloat(vc.String())
+		return stringToFloat(safeString(vc))
 	case string:
 		return stringToFloat(vc)
 	case Boolean:
-		if !isNilPointer(vc) && vc.Boolean() {
+		if !isNilPointer(vc) && safeBoolean(vc) {
 			return 1
 		}
 		return 0
@@ -272,7 +303,7 @@ func CoerceString(v Value) string {
 		if isNilPointer(vc) {
 			return ""
 		}
-		return vc.String()
+		return safeString(vc)
 	case float32:
 		return formatFloat(float64(vc), 32)
 	case float64:
@@ -283,9 +314,9 @@ func CoerceString(v Value) string {
 		if isNilPointer(vc) {
 			return ""
 		}
-		return formatFloat(vc.Number(), 64)
+		return formatFloat(safeNumber(vc), 64)
 	case Boolean:
-		if !isNilPointer(vc) && vc.Boolean() == true {
+		if !isNilPointer(vc) && safeBoolean(vc) == true {
 			return "1" // Twig compatibility (aka PHP compatibility)
 		}
 		return ""
